@@ -373,7 +373,9 @@ fn cross_validate(rep: &mut Report, ex: &Extracted) {
 }
 
 /// (5a) local error of one step from exact data over h = 2^-k
-fn local_order(rep: &mut Report, m: Method) {
+/// `modified`: the step measured is the second one, taken after the callback moved the state onto another
+/// trajectory (ModifiedSolution with y multiplied by 1.25): it starts from exact data of that trajectory
+fn local_order(rep: &mut Report, m: Method, modified: bool) {
     let (p, _, _) = orders(m);
     let probs = vec![base(Base::Riccati), warp(&base(Base::Logistic(2.0)), Warp::Sin), base(Base::Harmonic(1.3)), base(Base::Rational)];
     for (pi, p0) in probs.iter().enumerate() {
@@ -385,8 +387,11 @@ fn local_order(rep: &mut Report, m: Method) {
             let ks: Vec<i32> = (1..=8).collect();
             for &k in &ks {
                 let h = 0.5f64.powi(k) * if backward { -1.0 } else { 1.0 };
-                let mut c = Cfg::new(m, x0, x0 + h, &y0);
+                let mut c = Cfg::new(m, x0, x0 + if modified { 2.0 * h } else { h }, &y0);
                 c.first_step = Some(h);
+                if modified {
+                    c.max_step = Some(h.abs());
+                }
                 c.user_jac = true;
                 if m == Method::RADAU {
                     // a loose but realistic tolerance (error test passes for h <= 1/2) and a tight
@@ -399,11 +404,25 @@ fn local_order(rep: &mut Report, m: Method) {
                     c.rtol = Tol::S(0.0);
                     c.atol = Tol::S(1e30);
                 }
-                let r = run_lowlevel(&pr, &c, &[(1, Ans::Interrupt)], &[], None, false);
+                let script: Vec<(usize, Ans)> = if modified { vec![(1, Ans::Modified(1.25)), (2, Ans::Interrupt)] } else { vec![(1, Ans::Interrupt)] };
+                let r = run_lowlevel(&pr, &c, &script, &[], None, false);
                 rep.evaluations += 1;
                 rep.transitions += r.st.n_ode;
                 if r.recs.len() < 2 || (r.recs[1].x - (x0 + h)).abs() > 1e-15 {
                     errs.push(f64::NAN);
+                    continue;
+                }
+                if modified {
+                    if r.recs.len() < 3 || (r.recs[2].x - (x0 + 2.0 * h)).abs() > 1e-14 {
+                        errs.push(f64::NAN);
+                        continue;
+                    }
+                    let y1: Vec<f64> = r.recs[1].y.iter().map(|v| v * 1.25).collect();
+                    let e = match pr.exact(r.recs[1].x, &y1, r.recs[2].x) {
+                        Some(ex) => r.recs[2].y.iter().zip(&ex).fold(0.0f64, |a, (u, v)| a.max((u - v).abs())),
+                        None => f64::NAN,
+                    };
+                    errs.push(e);
                     continue;
                 }
                 let ex = pr.exact(x0, &y0, x0 + h).unwrap();
@@ -419,19 +438,21 @@ fn local_order(rep: &mut Report, m: Method) {
                 }
             }
             rep.validated += 1;
-            let key = format!("localorder:{}:{}:{}", mname(m), pi, backward as u8);
+            let key = format!("localorder{}:{}:{}:{}", if modified { "-after-modification" } else { "" }, mname(m), pi, backward as u8);
             // the asymptotic regime: use the last three usable ratios
             let tail: Vec<f64> = observed.iter().rev().take(3).copied().collect();
             if tail.len() >= 2 {
                 let best = tail.iter().fold(f64::NEG_INFINITY, |a, b| a.max(*b));
-                rep.tags.entry("local-order-ladder".into()).and_modify(|c| *c += 1).or_insert(1);
-                if best < (p + 1) as f64 - 0.4 {
+                rep.tags.entry(if modified { "local-order-ladder-after-modification" } else { "local-order-ladder" }.into()).and_modify(|c| *c += 1).or_insert(1);
+                // (after a modification the ladder starts from larger states and is shorter above the rounding
+                // floor: DOP853 shows 8.4 on its last usable pair; the defects looked for give 1 or 2)
+                if best < (p + 1) as f64 - if modified { 1.0 } else { 0.4 } {
                     rep.violations.push(
-                        Violation::new(&key, "local-order", format!("{} on {}{}: observed local order {:?} (errors {:?}), expected about {}", mname(m), pr.name, if backward { " backward" } else { "" }, observed, errs, p + 1), json!({"key": key}))
+                        Violation::new(&key, "local-order", format!("{} on {}{}{}: observed local order {:?} (errors {:?}), expected about {}", mname(m), pr.name, if backward { " backward" } else { "" }, if modified { ", step after ModifiedSolution" } else { "" }, observed, errs, p + 1), json!({"key": key}))
                             .with("method", mname(m)),
                     );
                 }
-            } else if m != Method::DOP853 {
+            } else if m != Method::DOP853 && !modified {
                 rep.machinery_errors.push(format!("{}: no usable error ladder on {}", mname(m), pr.name));
             }
         }
@@ -525,7 +546,8 @@ pub fn run_check(replay: Option<Value>) -> i32 {
                 }
             }
         }
-        local_order(&mut rep, m);
+        local_order(&mut rep, m, false);
+        local_order(&mut rep, m, true);
     }
     step_count_law(&mut rep, Method::RK23, 3.0);
     step_count_law(&mut rep, Method::DOPRI5, 5.0);
@@ -546,7 +568,7 @@ pub fn run_check(replay: Option<Value>) -> i32 {
     rep.dims = json!({"methods": RK_METHODS.iter().map(|m| mname(*m)).collect::<Vec<_>>(), "h_signs": [1, -1], "rooted_trees_up_to_order": 9,
         "conditions": {"RK4": 8, "RK23": 4, "DOPRI5": 17, "DOP853": 200, "RADAU": 17}, "estimator_trees": "all trees of order <= q+1 at atol 1e-13 and 1e-8",
         "cross_validation": "6 nonlinear problems x 4 step sizes x both signs per explicit method", "local_order": "4 problems x both directions x h=2^-1..2^-8", "step_count": "2 problems x 9 tolerances"});
-    for t in ["second-step-tableau", "order-condition", "estimator-trees", "cross-validated", "local-order-ladder", "step-count-law", "radau-real-step-vs-pade", "radau-pade-every-step"] {
+    for t in ["second-step-tableau", "order-condition", "estimator-trees", "cross-validated", "local-order-ladder", "local-order-ladder-after-modification", "step-count-law", "radau-real-step-vs-pade", "radau-pade-every-step"] {
         rep.require(t, 1);
     }
     rep.states_override = Some(forest.trees.len() as u64 * RK_METHODS.len() as u64);
